@@ -179,7 +179,7 @@ def gen_case(rng, rich=True):
     pc['mc'] = mc
     cfg = {'file': rng.choice(['Toaster.dzn', 'dir/sub/Model.dzn', 'My.Model.dzn', comp_name + '.dzn']),
            'suffix': rng.choice(['AdvShell', 'Shell', '_Impl']), 'enc': comp_scope + [comp_name], 'ports': pc,
-           'fac': rng.choice(['create', 'import']), 'copyright': rng.choice(['Copyright (c) 2024 X', '(c) a\n(c) b', '', 'line\n\n  indented']),
+           'fac': rng.choice(['create', 'import']), 'copyright': rng.choice(['Copyright (c) 2024 X', '(c) a\n(c) b', '', 'line\n\n  indented', 'Copyright \u00a9 2024 \u00dcn\u00efc\u00f6de \u20ac \U0001f600']),
            'sf_prefix': rng.choice([None, None, ['Other', 'Project'], ['P_1']]),
            'creator': rng.choice([None, None, 'script.py', 'tool v1\nby me\n'])}
     return {'file': tree, 'cfg': cfg,
